@@ -431,7 +431,10 @@ func runC10(c *Ctx) {
 				continue
 			}
 			blocks = append(blocks, blk{d.process, b})
-			for _, ins := range b.Instrs {
+		}
+		// ... and the helpers of the package called from there, transitively (the test may be split further)
+		for i := 0; i < len(blocks) && len(seenFn) < 12; i++ {
+			for _, ins := range blocks[i].b.Instrs {
 				if call, ok := ins.(ssa.CallInstruction); ok {
 					h := call.Common().StaticCallee()
 					if h != nil && h.Blocks != nil && h.Pkg == d.process.Pkg && h != d.process && !seenFn[h] {
@@ -442,6 +445,36 @@ func runC10(c *Ctx) {
 					}
 				}
 			}
+		}
+		// a parameter of such a helper stands for what its (only) callers among these blocks pass
+		var behind func(v ssa.Value, depth int) ssa.Value
+		behind = func(v ssa.Value, depth int) ssa.Value {
+			prm, ok := stripConv(v).(*ssa.Parameter)
+			if !ok || depth > 3 {
+				return v
+			}
+			idx := -1
+			for i, q := range prm.Parent().Params {
+				if q == prm {
+					idx = i
+				}
+			}
+			var arg ssa.Value
+			for _, bb := range blocks {
+				for _, ins := range bb.b.Instrs {
+					if call, ok := ins.(ssa.CallInstruction); ok && call.Common().StaticCallee() == prm.Parent() && idx >= 0 && idx < len(call.Common().Args) {
+						a := call.Common().Args[idx]
+						if arg != nil && pathExpr(arg) != pathExpr(a) {
+							return v
+						}
+						arg = a
+					}
+				}
+			}
+			if arg == nil {
+				return v
+			}
+			return behind(arg, depth+1)
 		}
 		n, bad := 0, ""
 		keyword := false
@@ -501,14 +534,18 @@ func runC10(c *Ctx) {
 					if cal.Name() != "HasPrefix" {
 						continue
 					}
-					pfx := x.Call.Args[1]
-					if !strings.Contains(pathExpr(pfx), ".lastPosition") {
+					pfx := behind(x.Call.Args[1], 0)
+					mentions := strings.Contains(pathExpr(pfx), ".lastPosition")
+					if bo, isBin := pfx.(*ssa.BinOp); isBin && bo.Op == token.ADD && strings.Contains(pathExpr(behind(bo.X, 0)), ".lastPosition") {
+						mentions = true
+					}
+					if !mentions {
 						continue
 					}
 					n++
 					okSep := false
 					if bo, isBin := pfx.(*ssa.BinOp); isBin && bo.Op == token.ADD {
-						if cst, isC := bo.Y.(*ssa.Const); isC && cst.Value != nil && cst.Value.Kind() == constant.String && strings.HasPrefix(constant.StringVal(cst.Value), " ") && strings.HasSuffix(pathExpr(bo.X), ".lastPosition") {
+						if cst, isC := bo.Y.(*ssa.Const); isC && cst.Value != nil && cst.Value.Kind() == constant.String && strings.HasPrefix(constant.StringVal(cst.Value), " ") && strings.HasSuffix(pathExpr(behind(bo.X, 0)), ".lastPosition") {
 							okSep = true
 						}
 					}
